@@ -327,6 +327,12 @@ def w_laser(ctx, rng, i):
     t = np.arange(n) * T.gv.dt
     p = float(rng.uniform(-30, 30))
     lw = [None, float(10 ** rng.uniform(3, 8))][int(rng.integers(2))]
+    if i % 5 == 4:      # normalised simulation (fs = 1): the time axis is the sample index, an INTEGER array
+        with core.quiet():
+            T.gv(sps=sps, R=1 / sps, N=N)
+        t = np.arange(n, dtype=[np.int64, np.int32, np.uint16, np.intp][int(rng.integers(4))])
+        lw = None if lw is None else float(10 ** rng.uniform(-6, -2))
+        ctx.bin("laser.t_dtype", str(t.dtype))
     mode = i % 3
     df = None
     if mode == 1:
